@@ -411,3 +411,361 @@ Proof.
   unfold step, reload_main, go_reload_begin. cbn [go_reload_end]. rewrite Nat.eqb_refl.
   rewrite validate_fresh. apply inv_touches4; [touches; auto|exact Hopen].
 Qed.
+
+Ltac norm_state x :=
+  eval lazy beta iota zeta delta [set_served add_wrapper touches4 touch bclose set_log set_bks set_ws
+     set_readers set_pending set_shut alloc
+     served nw ws nb bks readers pending shut log fst snd] in x.
+Ltac st_norm := match goal with |- Inv ?x => let y := norm_state x in change (Inv y) end.
+
+Lemma step_reload_new : forall s k, Inv s -> ok_op s (Reload (CNew k)) = true ->
+  Inv (step (Reload (CNew k)) s).
+Proof.
+  intros s k HI Hok.
+  assert (Hsh : shut s = false).
+  { destruct k; cbn in Hok; [apply andb_prop in Hok; destruct Hok as [Hok _]|]; now apply negb_true_iff in Hok. }
+  pose proof (served_open s HI Hsh) as Hopen. pose proof (served_bk_lt s HI) as Hlt.
+  unfold step, reload_main, go_reload_begin. rewrite go_end_new.
+  change (nb (touch (w_bk (ws s (served s))) OpReload s)) with (nb s).
+  destruct (Nat.eqb_spec (nb s) (w_bk (ws s (served s)))) as [|Hne]; [lia|]. clear Hne.
+  unfold w_validate_or_destroy. rewrite validate_fresh.
+  destruct HI as [Hsv Hbk Hinj Href Hdes Hcl Horph Hrd Hpend Hlog].
+  destruct s as [sv n w m bk rd pd sh lg]. cbn in *. subst sh.
+  destruct k.
+  - unfold no_pending in Hok; cbn in Hok. destruct pd; [|discriminate]. clear Hok Hpend.
+    match goal with |- Inv (set_served ?a (on_wrapper ?b ?f ?x)) =>
+      let y := norm_state x in change (Inv (set_served a (on_wrapper b f y))) end.
+    unfold on_wrapper, w_destroy. cbn [ws w_ref w_bk w_destroyable]. rewrite (fupd_neq _ w n _ sv) by lia.
+    destruct (w_ref (w sv) =? 0) eqn:C; st_norm.
+    + (* the old wrapper has no readers: its backend is closed now *)
+      constructor; cbn [served nw ws nb bks readers pending shut log].
+      * lia.
+      * intros j Hj. unfold fupd. destruct (Nat.eqb_spec j sv); [subst; cbn; lia|].
+        destruct (Nat.eqb_spec j n); [subst; cbn; lia|]. specialize (Hbk j). lia.
+      * intros j k Hj Hk. pose proof (Hbk j) as Bj. pose proof (Hbk k) as Bk. unfold fupd.
+        destruct (Nat.eqb_spec j sv), (Nat.eqb_spec k sv), (Nat.eqb_spec j n), (Nat.eqb_spec k n);
+          subst; cbn; intro X; try lia; apply Hinj; auto; lia.
+      * intros j Hj. unfold fupd. destruct (Nat.eqb_spec j sv); [subst; cbn; auto|].
+        destruct (Nat.eqb_spec j n); [subst; cbn; symmetry; apply nheld_ge; auto|]. apply Href. lia.
+      * intros j Hj. unfold fupd. destruct (Nat.eqb_spec j sv) as [|ne]; [subst; cbn|].
+        { destruct (Nat.eqb_spec sv n); [lia|reflexivity]. }
+        destruct (Nat.eqb_spec j n); [subst; cbn; reflexivity|].
+        rewrite Hdes by lia. apply Nat.eqb_neq in ne. now rewrite ne.
+      * intros j Hj.
+        destruct (Nat.eqb_spec j sv); [subst; rewrite !(fupd_eq _ (fupd w n _)); cbn [w_bk w_ref w_destroyable]|].
+        { rewrite fupd_eq, C. rewrite (fupd_neq _ bk m) by lia. rewrite Hopen. reflexivity. }
+        rewrite !(fupd_neq _ (fupd w n _) sv) by auto.
+        destruct (Nat.eqb_spec j n); [subst; rewrite !(fupd_eq _ w n); cbn [w_bk w_ref w_destroyable]|].
+        { rewrite (fupd_neq _ _ (w_bk (w sv))) by lia. rewrite fupd_eq. reflexivity. }
+        rewrite !(fupd_neq _ w n) by auto.
+        assert (j < n)%nat by lia. pose proof (Hbk j H).
+        rewrite fupd_neq by (intro X; apply n0; apply Hinj; auto).
+        rewrite fupd_neq by lia. auto.
+      * intros b Hb H. assert (b <> w_bk (w sv)).
+        { intro X. apply (H sv); [lia|]. unfold fupd. rewrite Nat.eqb_refl. cbn. auto. }
+        assert (b <> m).
+        { intro X. apply (H n); [lia|]. unfold fupd. destruct (Nat.eqb_spec n sv); [lia|].
+          rewrite Nat.eqb_refl. cbn. auto. }
+        rewrite !fupd_neq by auto. apply Horph; [lia|]. intros j Hj. specialize (H j). unfold fupd in H.
+        destruct (Nat.eqb_spec j sv); [subst; auto|]. destruct (Nat.eqb_spec j n); [lia|]. apply H. lia.
+      * intros r j H. apply Hrd in H. lia.
+      * easy.
+      * apply LI_close; [|lia]. repeat (apply LI_touch; [| |reflexivity|reflexivity]).
+        { apply LI_alloc. apply LI_touch; auto. }
+        all: unfold fupd; rewrite ?Nat.eqb_refl; auto.
+        destruct (Nat.eqb_spec (w_bk (w sv)) m); [lia|auto].
+    + (* the old wrapper is still pinned: it is only marked destroyable *)
+      constructor; cbn [served nw ws nb bks readers pending shut log].
+      * lia.
+      * intros j Hj. unfold fupd. destruct (Nat.eqb_spec j sv); [subst; cbn; lia|].
+        destruct (Nat.eqb_spec j n); [subst; cbn; lia|]. specialize (Hbk j). lia.
+      * intros j k Hj Hk. pose proof (Hbk j) as Bj. pose proof (Hbk k) as Bk. unfold fupd.
+        destruct (Nat.eqb_spec j sv), (Nat.eqb_spec k sv), (Nat.eqb_spec j n), (Nat.eqb_spec k n);
+          subst; cbn; intro X; try lia; apply Hinj; auto; lia.
+      * intros j Hj. unfold fupd. destruct (Nat.eqb_spec j sv); [subst; cbn; auto|].
+        destruct (Nat.eqb_spec j n); [subst; cbn; symmetry; apply nheld_ge; auto|]. apply Href. lia.
+      * intros j Hj. unfold fupd. destruct (Nat.eqb_spec j sv) as [|ne]; [subst; cbn|].
+        { destruct (Nat.eqb_spec sv n); [lia|reflexivity]. }
+        destruct (Nat.eqb_spec j n); [subst; cbn; reflexivity|].
+        rewrite Hdes by lia. apply Nat.eqb_neq in ne. now rewrite ne.
+      * intros j Hj.
+        destruct (Nat.eqb_spec j sv); [subst; rewrite !(fupd_eq _ (fupd w n _)); cbn [w_bk w_ref w_destroyable]|].
+        { rewrite C. rewrite (fupd_neq _ bk m) by lia. rewrite Hopen. reflexivity. }
+        rewrite !(fupd_neq _ (fupd w n _) sv) by auto.
+        destruct (Nat.eqb_spec j n); [subst; rewrite !(fupd_eq _ w n); cbn [w_bk w_ref w_destroyable]|].
+        { rewrite fupd_eq. reflexivity. }
+        rewrite !(fupd_neq _ w n) by auto.
+        assert (j < n)%nat by lia. pose proof (Hbk j H).
+        rewrite fupd_neq by lia. auto.
+      * intros b Hb H.
+        assert (b <> m).
+        { intro X. apply (H n); [lia|]. unfold fupd. destruct (Nat.eqb_spec n sv); [lia|].
+          rewrite Nat.eqb_refl. cbn. auto. }
+        rewrite !fupd_neq by auto. apply Horph; [lia|]. intros j Hj. specialize (H j). unfold fupd in H.
+        destruct (Nat.eqb_spec j sv); [subst; cbn in H; apply H; lia|]. destruct (Nat.eqb_spec j n); [lia|]. apply H. lia.
+      * intros r j H. apply Hrd in H. lia.
+      * easy.
+      * repeat (apply LI_touch; [| |reflexivity|reflexivity]).
+        { apply LI_alloc. apply LI_touch; auto. }
+        all: unfold fupd; rewrite ?Nat.eqb_refl; auto.
+        destruct (Nat.eqb_spec (w_bk (w sv)) m); [lia|auto].
+  - (* validation failed on a fresh backend: newDB.Destroy() closes it, f stays *)
+    clear Hok. st_norm.
+    constructor; cbn [served nw ws nb bks readers pending shut log].
+    + lia.
+    + intros j Hj. unfold fupd. destruct (Nat.eqb_spec j n); [subst; cbn; lia|]. specialize (Hbk j). lia.
+    + intros j k Hj Hk. pose proof (Hbk j) as Bj. pose proof (Hbk k) as Bk. unfold fupd.
+      destruct (Nat.eqb_spec j n), (Nat.eqb_spec k n); subst; cbn; intro X; try lia; apply Hinj; auto; lia.
+    + intros j Hj. unfold fupd.
+      destruct (Nat.eqb_spec j n); [subst; cbn; symmetry; apply nheld_ge; auto|]. apply Href. lia.
+    + intros j Hj. unfold fupd.
+      destruct (Nat.eqb_spec j n); [subst; cbn|apply Hdes; lia].
+      destruct (Nat.eqb_spec n sv); [lia|reflexivity].
+    + intros j Hj.
+      destruct (Nat.eqb_spec j n); [subst; rewrite !(fupd_eq _ w n); cbn [w_bk w_ref w_destroyable]|].
+      { rewrite !fupd_eq. reflexivity. }
+      rewrite !(fupd_neq _ w n) by auto.
+      assert (j < n)%nat by lia. pose proof (Hbk j H).
+      rewrite !fupd_neq by lia. auto.
+    + intros b Hb H.
+      assert (b <> m).
+      { intro X. apply (H n); [lia|]. unfold fupd. rewrite Nat.eqb_refl. cbn. auto. }
+      rewrite !fupd_neq by auto. apply Horph; [lia|]. intros j Hj. specialize (H j). unfold fupd in H.
+      destruct (Nat.eqb_spec j n); [lia|]. apply H. lia.
+    + intros r j H. apply Hrd in H. lia.
+    + exact Hpend.
+    + apply LI_close; [|lia]. repeat (apply LI_touch; [| |reflexivity|reflexivity]).
+      { apply LI_alloc. apply LI_touch; auto. }
+      all: unfold fupd; rewrite ?Nat.eqb_refl; auto.
+      destruct (Nat.eqb_spec (w_bk (w sv)) m); [lia|auto].
+Qed.
+
+(* ------------------------------------------------------------------ all steps, all histories *)
+Lemma step_inv : forall o s, Inv s -> ok_op s o = true -> Inv (step o s).
+Proof.
+  intros o s HI Hok. destruct o as [r|r|r|c|c| |i c|].
+  - now apply step_acquire.
+  - now apply step_use.
+  - now apply step_release.
+  - destruct c as [k|k|]; [now apply step_reload_new|now apply step_reload_same|now apply step_reload_err].
+  - now apply step_timeout_pub.
+  - now apply step_timeout_first.
+  - now apply step_late.
+  - now apply step_shutdown.
+Qed.
+
+Lemma run_inv : forall ops s, Inv s -> wf_hist s ops = true -> Inv (run ops s).
+Proof.
+  induction ops as [|o t IH]; intros s HI Hwf; [exact HI|].
+  cbn in Hwf. apply andb_prop in Hwf. destruct Hwf as [Hok Hwf].
+  cbn. apply IH; auto. now apply step_inv.
+Qed.
+
+Lemma reachable_inv : forall ops, wf_hist init ops = true -> Inv (run ops init).
+Proof. intros. apply run_inv; auto. apply inv_init. Qed.
+
+(* ------------------------------------------------------------------ what the invariant gives *)
+Lemma owner_dec : forall (w : nat -> wrapper) b n,
+  (exists i, (i < n)%nat /\ w_bk (w i) = b) \/ (forall i, (i < n)%nat -> w_bk (w i) <> b).
+Proof.
+  induction n as [|n IH].
+  - right. intros; lia.
+  - destruct IH as [(i & Hi & E)|H].
+    + left. exists i. split; [lia|auto].
+    + destruct (Nat.eq_dec (w_bk (w n)) b) as [E|E].
+      * left. exists n. split; [lia|auto].
+      * right. intros i Hi. destruct (Nat.eq_dec i n); [subst; auto|apply H; lia].
+Qed.
+
+Lemma inv_bks_le1 : forall s b, Inv s -> bks s b <= 1.
+Proof.
+  intros s b HI. destruct (Nat.ltb_spec b (nb s)) as [Hb|Hb].
+  - destruct (owner_dec (ws s) b (nw s)) as [(i & Hi & E)|H].
+    + subst b. rewrite (I_cl s HI i Hi). destruct (_ && _); lia.
+    + rewrite (I_orphan s HI b Hb H). lia.
+  - destruct (I_log s HI) as (_ & _ & _ & Hf). rewrite Hf by lia. lia.
+Qed.
+
+Lemma in_pinned : forall s b, In b (pinned s) <-> exists r i, In (r, i) (readers s) /\ w_bk (ws s i) = b.
+Proof.
+  intros s b. unfold pinned. rewrite in_map_iff. split.
+  - intros ([r i] & E & Hin). exists r, i. auto.
+  - intros (r & i & Hin & E). exists (r, i). auto.
+Qed.
+
+Lemma inv_no_uac : forall s, Inv s -> no_use_after_close (log s).
+Proof. intros s HI. apply (I_log s HI). Qed.
+
+Lemma inv_no_double_close : forall s, Inv s -> no_double_close (log s).
+Proof.
+  intros s HI b. destruct (I_log s HI) as (Hc & _). rewrite Hc. now apply inv_bks_le1.
+Qed.
+
+Lemma inv_handles : forall s, Inv s -> handles_ok (snap s).
+Proof.
+  intros s HI. destruct (I_log s HI) as (Hc & Ho & _ & _). split; cbn [snap sn_log].
+  - intros b [Hs|Hp].
+    + cbn in Hs. destruct (shut s) eqn:Hsh; [discriminate|]. inversion Hs; subst b. split.
+      * apply Ho. now apply served_bk_lt.
+      * rewrite Hc. now apply served_open.
+    + cbn in Hp. apply in_pinned in Hp. destruct Hp as (r & i & Hin & <-). split.
+      * apply Ho. apply (I_bk s HI). apply (I_rd s HI _ _ Hin).
+      * rewrite Hc. eapply pinned_open; eauto.
+  - intros b Hop Hnn. apply Ho in Hop. rewrite Hc.
+    destruct (owner_dec (ws s) b (nw s)) as [(i & Hi & E)|H].
+    + subst b. rewrite (I_cl s HI i Hi).
+      destruct (w_destroyable (ws s i)) eqn:D.
+      * destruct (w_ref (ws s i) =? 0) eqn:R; [reflexivity|]. exfalso. apply Hnn. right. cbn.
+        apply in_pinned. rewrite (I_ref s HI i Hi) in R.
+        destruct (nheld_pos_in i (readers s)) as [r Hr]; [lia|]. eauto.
+      * exfalso. apply Hnn. left. cbn. rewrite (I_des s HI i Hi) in D.
+        apply orb_false_iff in D. destruct D as [D1 D2]. rewrite D2.
+        apply negb_false_iff, Nat.eqb_eq in D1. now subst i.
+    + apply (I_orphan s HI b Hop H).
+Qed.
+
+Lemma handles_no_leak : forall sn, handles_ok sn -> no_leak sn.
+Proof.
+  intros sn [_ H2] Hq b Hop Hns. apply H2; auto. intros [X|X]; [auto|]. rewrite Hq in X. destruct X.
+Qed.
+
+(* ------------------------------------------------------------------ the C06 theorems *)
+Lemma no_use_after_close_all : forall ops, wf_hist init ops = true ->
+  no_use_after_close (log (run ops init)).
+Proof. intros. now apply inv_no_uac, reachable_inv. Qed.
+
+Lemma no_double_close_all : forall ops, wf_hist init ops = true ->
+  no_double_close (log (run ops init)).
+Proof. intros. now apply inv_no_double_close, reachable_inv. Qed.
+
+Lemma open_iff_needed_all : forall ops, wf_hist init ops = true ->
+  handles_ok (snap (run ops init)).
+Proof. intros. now apply inv_handles, reachable_inv. Qed.
+
+(* quiescent: no reader holds anything and no timed-out reload is still in flight.
+   Every backend ever opened, except the served one, has been closed exactly once;
+   after shutdown the served one too. *)
+Lemma no_leak_all : forall ops, wf_hist init ops = true ->
+  let s := run ops init in
+  quiescent s ->
+  forall b, openedb (log s) b = true ->
+    (shut s = true \/ b <> w_bk (ws s (served s))) -> closes (log s) b = 1.
+Proof.
+  intros ops Hwf s [Hq _] b Hop Hb.
+  apply (handles_no_leak (snap s)); auto.
+  - apply open_iff_needed_all; auto.
+  - cbn. unfold pinned. fold s. now rewrite Hq.
+  - cbn. fold s. destruct (shut s); [discriminate|]. destruct Hb as [Hb|Hb]; [discriminate|]. congruence.
+Qed.
+
+(* refcounts count the held readers, at every reachable state *)
+Lemma refcount_exact_all : forall ops, wf_hist init ops = true ->
+  let s := run ops init in
+  forall i, (i < nw s)%nat -> w_ref (ws s i) = nheld i (readers s).
+Proof. intros ops Hwf s i Hi. apply (I_ref s (reachable_inv ops Hwf) i Hi). Qed.
+
+(* ------------------------------------------------------------------ the boolean twins of Spec/Handles
+   (Run/C06 evaluates these on the event log observed from the Go code) *)
+Lemma no_use_after_closeb_iff : forall l, no_use_after_closeb l = true <-> no_use_after_close l.
+Proof.
+  induction l as [|[b o] t IH]; cbn; [easy|].
+  rewrite andb_true_iff, IH, orb_true_iff, N.eqb_eq.
+  split; intros [H1 H2]; split; auto.
+  - intros Hc. destruct H1; [congruence|auto].
+  - destruct (is_close o); [now left|right; auto].
+Qed.
+
+Lemma closes_pos_in : forall l b, 1 <= closes l b -> exists o, In (b, o) l.
+Proof.
+  induction l as [|[b' o] t IH]; cbn; intros b H; [lia|].
+  destruct (Nat.eqb_spec b' b).
+  - subst. exists o. now left.
+  - cbn in H. destruct (IH b) as [o' Ho']; [lia|]. exists o'. now right.
+Qed.
+
+Lemma no_double_closeb_iff : forall l, no_double_closeb l = true <-> no_double_close l.
+Proof.
+  intros l. unfold no_double_closeb, no_double_close. rewrite forallb_forall. split.
+  - intros H b. destruct (N.leb_spec (closes l b) 1) as [|Hgt]; [auto|].
+    destruct (closes_pos_in l b) as [o Ho]; [lia|]. specialize (H _ Ho). cbn in H.
+    apply N.leb_le in H. lia.
+  - intros H e _. apply N.leb_le. apply H.
+Qed.
+
+Lemma openedb_in : forall l b, openedb l b = true <-> In (b, OpOpen) l.
+Proof.
+  intros l b. unfold openedb. rewrite existsb_exists. split.
+  - intros ([b' o] & Hin & H). cbn in H. apply andb_prop in H. destruct H as [H1 H2].
+    apply Nat.eqb_eq in H1. apply N.eqb_eq in H2. subst. exact Hin.
+  - intros H. exists (b, OpOpen). split; auto. cbn. now rewrite Nat.eqb_refl.
+Qed.
+
+Lemma neededb_iff : forall sn b, neededb sn b = true <-> needed sn b.
+Proof.
+  intros sn b. unfold neededb, needed. rewrite orb_true_iff, existsb_exists. split.
+  - intros [H|(x & Hin & H)].
+    + left. destruct (sn_served sn); [|discriminate]. apply Nat.eqb_eq in H. now subst.
+    + right. apply Nat.eqb_eq in H. now subst.
+  - intros [H|H].
+    + left. rewrite H. apply Nat.eqb_refl.
+    + right. exists b. split; auto. apply Nat.eqb_refl.
+Qed.
+
+Lemma handles_okb_iff : forall sn, handles_okb sn = true <-> handles_ok sn.
+Proof.
+  intros sn. unfold handles_okb, handles_ok. rewrite !andb_true_iff, !forallb_forall. split.
+  - intros [[H1 H2] H3]. split.
+    + intros b Hn. assert (Hop : openedb (sn_log sn) b = true).
+      { destruct Hn as [Hn|Hn]; [now rewrite Hn in H1|auto]. }
+      split; auto. apply openedb_in in Hop. specialize (H3 _ Hop). cbn in H3.
+      apply neededb_iff in Hn. rewrite Hn in H3. now apply N.eqb_eq in H3.
+    + intros b Hop Hnn. apply openedb_in in Hop. specialize (H3 _ Hop). cbn in H3.
+      destruct (neededb sn b) eqn:E; [apply neededb_iff in E; contradiction|]. now apply N.eqb_eq in H3.
+  - intros [H1 H2]. repeat split.
+    + destruct (sn_served sn) as [b|] eqn:E; auto. apply H1. now left.
+    + intros b Hb. apply H1. now right.
+    + intros [b o] Hin. cbn. destruct (is_open o) eqn:O; [|reflexivity]. cbn.
+      apply N.eqb_eq in O. subst o. apply openedb_in in Hin.
+      destruct (neededb sn b) eqn:E; apply N.eqb_eq.
+      * apply H1. now apply neededb_iff.
+      * apply H2; auto. intro X. apply neededb_iff in X. congruence.
+Qed.
+
+(* ------------------------------------------------------------------ refutation beyond the guard:
+   a reload times out while DBI.Reload is still running on the served backend;
+   before that call returns, a second reload succeeds with a new backend and
+   DB.Reload destroys the old wrapper, which (no readers) closes the backend the
+   first goroutine is still working on.  Only the in-flight clause of the guard
+   is dropped (wf_hist_weak). *)
+Definition inflight_witness : list op := [ReloadTimeoutFirst; Reload (CNew true); LateComplete 0 CErr].
+
+Lemma inflight_reload_refuted :
+  exists ops, wf_hist_weak init ops = true /\ ~ no_use_after_close (log (run ops init)).
+Proof.
+  exists inflight_witness. split; [vm_compute; reflexivity|].
+  intro H. apply no_use_after_closeb_iff in H. vm_compute in H. discriminate.
+Qed.
+
+(* the same race with shutdown instead of a second reload *)
+Lemma inflight_shutdown_refuted :
+  exists ops, wf_hist_weak init ops = true /\ ~ no_use_after_close (log (run ops init)).
+Proof.
+  exists [ReloadTimeoutFirst; Shutdown; LateComplete 0 (CSame true)]. split; [vm_compute; reflexivity|].
+  intro H. apply no_use_after_closeb_iff in H. vm_compute in H. discriminate.
+Qed.
+
+(* ------------------------------------------------------------------ the guard is satisfiable by long, non-trivial histories *)
+Definition example_history : list op :=
+  [Acquire 0; Use 0; Reload (CNew true); Acquire 1; Use 0; Use 1; Reload (CSame true);
+   Reload (CSame false); Reload CErr; Reload (CNew false); Acquire 2; ReloadTimeoutPub (CNew true);
+   ReloadTimeoutFirst; Use 2; Release 0; ReloadTimeoutFirst; LateComplete 1 (CNew true); Acquire 0;
+   LateComplete 0 (CSame true); Reload (CNew true); Use 1; Release 1; Use 0; Reload (CNew true);
+   ReloadTimeoutPub CErr; ReloadTimeoutFirst; LateComplete 0 CErr; Release 2; Shutdown; Use 0; Release 0].
+
+Example example_history_wf :
+  wf_hist init example_history = true /\
+  length example_history = 31%nat /\
+  nb (run example_history init) = 7%nat /\
+  quiescent (run example_history init) /\
+  map (closes (log (run example_history init))) (seq 0 7) = [1; 1; 1; 1; 1; 1; 1].
+Proof. vm_compute. repeat split; reflexivity. Qed.
